@@ -96,6 +96,8 @@ func syncKind(fn *types.Func) string {
 		return "WaitGroup.Wait"
 	case full == "(*sync.Cond).Broadcast":
 		return "Cond.Broadcast"
+	case full == "(*sync.Cond).Signal":
+		return "Cond.Signal"
 	case full == "(*sync.Cond).Wait":
 		return "Cond.Wait"
 	case full == "(*sync.Once).Do":
